@@ -59,7 +59,7 @@ func init() {
 	register(&Prop{
 		ID:         "C02",
 		Title:      "Query and Scan return exactly the matching items, in sort-key order",
-		Decided:    "the structural conditions under which 'iterate the key list once and emit what matches' is exact: (R1) the comparator that orders secondary-index entries is a lexicographic strict order by (index key, primary key) with both sides of every comparison using the same projection, reversed only under the direction flag; (R2) in the search loop the only append to the result is governed exactly by the per-item verdict, which depends on both the key/filter verdict and the 'start position passed' flag; (R3) the filter verdict is conjoined with the key-condition verdict (never overwrites or disjoins it) and a Scan seeds the verdict from the Scan flag only; (R4) in the four client sites Count derives from the length of, and Items from the conversion of, the same first result of SearchData; (R5) the QueryInput built by each site carries IndexName, key condition, filter, values, names, direction (default true when absent) and Scan/true for scans; (R6) when an index is named its entry list is (re)built once before the loop with the same direction value that drives the position arithmetic; (R7) expression kinds are paired with their expression texts (= C20.R5); (R10) a search walks SortedKeys and reads Data: every mutator of the pair preserves I1 (= C01.R2) – a key spliced out of the list while its item stays stored is an item no Query or Scan returns; (R11) Query and Scan over an index are not read-only in the engine (startSearch rebuilds index.sortedRefs, getPrimaryKey consumes it): every access to table and index state is made with the exclusive mutex held (= C11.L1) – a shared read lock lets two searches destroy each other's cursor and lose items.",
+		Decided:    "the structural conditions under which 'iterate the key list once and emit what matches' is exact: (R1) the comparator that orders secondary-index entries is a lexicographic strict order by (index key, primary key) with both sides of every comparison using the same projection, reversed only under the direction flag; (R2) in the search loop the only append to the result is governed exactly by the per-item verdict, which depends on both the key/filter verdict and the 'start position passed' flag; (R3) the filter verdict is conjoined with the key-condition verdict (never overwrites or disjoins it) and a Scan seeds the verdict from the Scan flag only; (R4) in the four client sites Count derives from the length of, and Items from the conversion of, the same first result of SearchData; (R5) the QueryInput built by each site carries IndexName, key condition, filter, values, names, direction (default true when absent) and Scan/true for scans; (R6) when an index is named its entry list is (re)built once before the loop with the same direction value that drives the position arithmetic; (R7) expression kinds are paired with their expression texts (= C20.R5); (R10) a search walks SortedKeys and reads Data: every mutator of the pair preserves I1 (= C01.R2) – a key spliced out of the list while its item stays stored is an item no Query or Scan returns; (R11) Query and Scan over an index are not read-only in the engine (startSearch rebuilds index.sortedRefs, getPrimaryKey consumes it): every access to table and index state is made with the exclusive mutex held (= C11.L1) – a shared read lock lets two searches destroy each other's cursor and lose items; (R12) the search state is closed (= C01.R12, C03.R10): no cached entry list or memo that a write can leave stale; (R13) the prefix and substring predicates used by key conditions and filters are the library ones with operands in order (= C06.R13); (R14) decision table of the per-item verdict (= C05.R9).",
 		NotDecided: "the truth value of the conditions (C06); the position arithmetic of GetKeyAt and of the index cursor (value-level); behaviour for an unknown index name.",
 		Rules: []RuleDef{
 			{ID: "R1", Desc: "index comparator is a lexicographic strict order on (index key, primary key) (comparator lint)", Run: c02R1},
@@ -92,6 +92,9 @@ func init() {
 					}
 				}
 			}, nil)},
+			{ID: "R12", Desc: "a search reads no state beyond the confirmed fields of table and index (= C01.R12 + C03.R10)", Run: func(e *Engine) { stateModelClosed(e, "R12", func(k string) bool { return k == "core.index" || k == "core.Table" }) }},
+			{ID: "R13", Desc: "begins_with in a key condition or filter selects exactly the items whose value has the prefix, the value equal to the prefix included (= C06.R13)", Run: aliasRule("R13", c06R13, nil)},
+			{ID: "R14", Desc: "the per-item verdict of a search is Scan / key condition AND filter, as a decision table (= C05.R9)", Run: aliasRule("R14", c05R9, nil)},
 		},
 	})
 }
@@ -952,6 +955,21 @@ func c02R8(e *Engine) {
 	if step == nil {
 		e.undecided("R8", "core.Table.SearchData:visits-every-position", e.pos(sd.Pos()), "position step not found")
 		return
+	}
+	// every return of the search lies behind the loop: a return that control can reach without entering the loop hands
+	// back an empty (or partial) page and no resume key although nothing was examined
+	for h, body := range naturalLoops(sd) {
+		if !body[step.Block()] {
+			continue
+		}
+		for _, r := range returnsOf(sd) {
+			construct := "core.Table.SearchData:returns-after-the-search"
+			if h.Dominates(r.Block()) {
+				e.pass("R8", construct, e.ipos(r), "the return is dominated by the head of the search loop")
+			} else {
+				e.fail("R8", construct, e.ipos(r), "SearchData can return without entering the loop over the key list: the items the request selects are not examined, the page comes back empty and complete (no LastEvaluatedKey) – matching items are lost")
+			}
+		}
 	}
 	n, why := e.visitsEveryElement(step, func(ex loopExit) bool {
 		// the page limit: a condition computed from the request's Limit
